@@ -906,7 +906,23 @@ def shape(ctx, mi):
   fn = fi.node
   first = [s for s in fn.body if isinstance(s, ast.If)][0]
   ok = norm_text(first.test) == 'not pitches' and isinstance(first.body[0], ast.Return) and norm_text(first.body[0].value) == 'constants.NO_CHORD'
-  ctx.ob('SHAPE/empty', fi, first, ok, 'no pitches -> N.C.' if ok else 'an empty pitch set is not named NO_CHORD')
+  lone = False
+  if not ok and any(isinstance(x, ast.Return) and x.value is not None and norm_text(x.value).endswith('NO_CHORD') for x in first.body):
+    # located: the test that leads to NO_CHORD folded for a container of one pitch
+    from sa import scenario
+    from fractions import Fraction
+    class _K(object):
+      def const_value(self):
+        return Fraction(1)
+    try:
+      reads = set(norm_text(a) for a in ast.walk(first.test) if isinstance(a, ast.Call)) | set(a.id for a in ast.walk(first.test) if isinstance(a, ast.Name)) - {'len'}
+      if reads == {'len(pitches)', 'pitches'} and not any(isinstance(a, ast.Name) and a.id == 'pitches' and not isinstance(U.parents(first.test).get(id(a)), ast.Call) for a in ast.walk(first.test)):
+        lone = bool(scenario.fold_numeric(first.test, {'len(pitches)': _K()}))
+    except Exception:
+      lone = False
+  ctx.ob('SHAPE/empty', fi, first, ok, 'no pitches -> N.C.' if ok else ('`%s` holds for a single pitch as well: one sounding pitch is named N.C., which the reader does not accept as a chord symbol of these pitches '
+                                                                         '(a lone pitch has a name - the pedal kind on its own pitch class - and reads back exactly)' % norm_text(first.test)[:50]
+                                                                         if lone else 'an empty pitch set is not named NO_CHORD'), definite=lone)
   b = [s for s in fn.body if isinstance(s, ast.Assign) and norm_text(s.targets[0]) == 'bass']
   ok = len(b) == 1 and norm_text(b[0].value) == 'min(pitches) % 12'
   ctx.ob('SHAPE/bass', fi, b[0] if b else fn, ok, 'the bass is the lowest supplied pitch' if ok else 'the bass is not min(pitches) % 12')
